@@ -168,6 +168,7 @@ func c17GenLucky(rng *rand.Rand) []c17Op {
 	}
 	thetaMode := rng.IntN(6)
 	rtdMode := rng.IntN(4)
+	negRTD := rng.IntN(6) == 0
 	hugeTheta, hugeSign, hugeMixed := rng.IntN(12) == 0, c17Sign(rng), rng.IntN(3) == 0
 	pReset := []float64{0, 0, 0.02, 0.1}[rng.IntN(4)]
 	theta0 := c17Sign(rng) * c17LogU(rng, 1, 1e18)
@@ -201,6 +202,10 @@ func c17GenLucky(rng *rand.Rand) []c17Op {
 			rtd++
 		}
 		seen[rtd] = true
+		negative := negRTD && rng.IntN(2) == 0 // coarse or stepped clocks: the computed delay is negative (and still distinct)
+		if negative {
+			rtd = -rtd
+		}
 		var theta int64
 		switch thetaMode {
 		case 0:
@@ -228,14 +233,18 @@ func c17GenLucky(rng *rand.Rand) []c17Op {
 			}
 		}
 		d1 := rtd / 2
-		switch rng.IntN(3) {
-		case 0:
+		switch {
+		case negative:
+		case rng.IntN(3) == 0:
 			d1 = rng.Int64N(rtd + 1)
-		case 1:
+		case rng.IntN(2) == 0:
 			d1 = rtd/2 + rng.Int64N(3) - 1
 		}
 		d2 := rtd - d1
 		proc := c17LogU(rng, 1, 1e8)
+		if negative {
+			proc += -rtd // the response still arrives after the request left
+		}
 		s := c17Mk(t, theta, d1, d2, proc)
 		ops = append(ops, c17Op{Kind: "sample", S: &s})
 		t += c17LogU(rng, 1e6, 64e9)
